@@ -7,6 +7,7 @@ package server
 // verifEvent hook, goroutine parking through the verifYield hook.
 
 import (
+	"bufio"
 	"bytes"
 	"context"
 	"crypto/tls"
@@ -15,6 +16,7 @@ import (
 	"fmt"
 	"io"
 	"log/slog"
+	"net"
 	"net/http"
 	"net/http/httptest"
 	"net/http/httputil"
@@ -391,6 +393,20 @@ func (rt vTargetRT) RoundTrip(req *http.Request) (*http.Response, error) {
 		return nil, rt.failed(rid, errors.New(beh[len("fault:"):]))
 	case strings.HasPrefix(beh, "status:"):
 		status, _ = strconv.Atoi(beh[len("status:"):])
+	case beh == "upgrade":
+		// 101 Switching Protocols with a writable body: the target's end of an in-memory connection that
+		// stays open until the proxy closes it
+		near, far := net.Pipe()
+		go func() { io.Copy(io.Discard, far) }()
+		s.mu.Lock()
+		s.events = append(s.events, vEvent{Seq: len(s.events), T: s.now(), G: rid, Kind: "target-replied", Args: []any{s.idTarget(rt.t), rid, 101}})
+		s.mu.Unlock()
+		h := http.Header{}
+		h.Set("Connection", "Upgrade")
+		h.Set("Upgrade", "websocket")
+		h.Set("X-Verif-Served-By", name)
+		return &http.Response{StatusCode: 101, Status: "101 Switching Protocols", Proto: "HTTP/1.1", ProtoMajor: 1, ProtoMinor: 1,
+			Header: h, Body: vPipeBody{near, far}, Request: req}, nil
 	}
 	s.mu.Lock()
 	s.events = append(s.events, vEvent{Seq: len(s.events), T: s.now(), G: rid, Kind: "target-replied", Args: []any{s.idTarget(rt.t), rid, status}})
@@ -404,6 +420,58 @@ func (rt vTargetRT) RoundTrip(req *http.Request) (*http.Response, error) {
 		Header: h, Body: io.NopCloser(strings.NewReader(body)), ContentLength: int64(len(body)), Request: req,
 	}, nil
 }
+
+// vPipeBody is the writable body of a 101 response (ReverseProxy needs an io.ReadWriteCloser).
+type vPipeBody struct{ near, far net.Conn }
+
+func (b vPipeBody) Read(p []byte) (int, error)  { return b.near.Read(p) }
+func (b vPipeBody) Write(p []byte) (int, error) { return b.near.Write(p) }
+func (b vPipeBody) Close() error                { b.far.Close(); return b.near.Close() }
+
+// vHijackRecorder is a ResponseRecorder whose connection can be taken over (for upgraded requests): the
+// client's end is drained by a goroutine that keeps what the proxy wrote.
+type vHijackRecorder struct {
+	*httptest.ResponseRecorder
+	mu       sync.Mutex
+	hijacked bool
+	wrote    bytes.Buffer
+	server   net.Conn
+}
+
+func (w *vHijackRecorder) Hijack() (net.Conn, *bufio.ReadWriter, error) {
+	c := &vCaptureConn{w: w, closed: make(chan struct{})}
+	w.mu.Lock()
+	w.hijacked = true
+	w.server = c
+	w.mu.Unlock()
+	return c, bufio.NewReadWriter(bufio.NewReader(c), bufio.NewWriter(c)), nil
+}
+
+// vCaptureConn is the taken-over client connection: what the proxy writes is kept (synchronously), the client
+// never sends anything, and a read returns EOF once the proxy has closed the connection.
+type vCaptureConn struct {
+	w      *vHijackRecorder
+	closed chan struct{}
+	once   sync.Once
+}
+
+func (c *vCaptureConn) Read(p []byte) (int, error) { <-c.closed; return 0, io.EOF }
+func (c *vCaptureConn) Write(p []byte) (int, error) {
+	c.w.mu.Lock()
+	defer c.w.mu.Unlock()
+	return c.w.wrote.Write(p)
+}
+func (c *vCaptureConn) Close() error                       { c.once.Do(func() { close(c.closed) }); return nil }
+func (c *vCaptureConn) LocalAddr() net.Addr                { return vAddr{} }
+func (c *vCaptureConn) RemoteAddr() net.Addr               { return vAddr{} }
+func (c *vCaptureConn) SetDeadline(t time.Time) error      { return nil }
+func (c *vCaptureConn) SetReadDeadline(t time.Time) error  { return nil }
+func (c *vCaptureConn) SetWriteDeadline(t time.Time) error { return nil }
+
+type vAddr struct{}
+
+func (vAddr) Network() string { return "verif" }
+func (vAddr) String() string  { return "verif" }
 
 func (s *vSim) install() func() {
 	oldDT := http.DefaultTransport
@@ -609,6 +677,14 @@ func (s *vSim) runRequest(id string, c map[string]any) map[string]any {
 	s.events = append(s.events, vEvent{Seq: len(s.events), T: s.now(), G: id, Kind: "arrive", Args: []any{id, req.Host, uri}})
 	s.mu.Unlock()
 	w := httptest.NewRecorder()
+	var hw *vHijackRecorder
+	var rw http.ResponseWriter = w
+	if strings.HasPrefix(vStr(c["behaviour"]), "upgrade") {
+		req.Header.Set("Connection", "Upgrade")
+		req.Header.Set("Upgrade", "websocket")
+		hw = &vHijackRecorder{ResponseRecorder: w}
+		rw = hw
+	}
 	handler, _ := WithErrorPageMiddleware(vPagesFS(), true, s.router)
 	res := map[string]any{"id": id, "op": "request", "t_arrive": s.now()}
 	func() {
@@ -617,10 +693,29 @@ func (s *vSim) runRequest(id string, c map[string]any) map[string]any {
 				res["panic"] = fmt.Sprint(p)
 			}
 		}()
-		handler.ServeHTTP(w, req)
+		handler.ServeHTTP(rw, req)
 	}()
 	cancel()
 	res["t_done"] = s.now()
+	if hw != nil {
+		hw.mu.Lock()
+		if hw.hijacked {
+			// the status line the proxy wrote on the taken-over connection
+			line := hw.wrote.String()
+			if f := strings.Fields(line); len(f) >= 2 {
+				if n, err := strconv.Atoi(f[1]); err == nil {
+					w.Code = n
+				}
+			}
+			for _, l := range strings.Split(line, "\r\n") {
+				if strings.HasPrefix(strings.ToLower(l), "x-verif-served-by:") {
+					w.Header().Set("X-Verif-Served-By", strings.TrimSpace(l[len("x-verif-served-by:"):]))
+				}
+			}
+			res["upgraded"] = true
+		}
+		hw.mu.Unlock()
+	}
 	res["status"] = w.Code
 	res["served_by"] = w.Header().Get("X-Verif-Served-By")
 	res["location"] = w.Header().Get("Location")
